@@ -110,7 +110,7 @@ def run(ctx):
                 if f16(content):
                     f16n += 1
                 else:
-                    ok_lines.append((k, "spec.cte_ok\t7bit\t" + hx(bytes(c & 0x7f for c in out) if enc == "8bit" else out)))
+                    ok_lines.append((k, "spec.cte_ok\t7bit\t" + hx(bytes((0x78 if c >= 128 else c) for c in out) if enc == "8bit" else out)))
         elif enc == "quoted-printable":
             dec_lines.append("spec.qp_decode\t" + hx(out)); dec_idx.append((k, content))
             ok_lines.append((k, "spec.cte_ok\tquoted-printable\t" + hx(out)))
